@@ -41,6 +41,8 @@ type catchEvent struct {
 	awaitingActions []chan IAction
 	once            sync.Once
 	satisfier       *logic.CatchEventSatisfier
+	// stopped is closed when the node's loop ends
+	stopped chan struct{}
 }
 
 func newCatchEvent(wr *wiring, element *schema.CatchEvent) (evt *catchEvent, err error) {
@@ -51,6 +53,7 @@ func newCatchEvent(wr *wiring, element *schema.CatchEvent) (evt *catchEvent, err
 		activated:       atomic.Bool{},
 		awaitingActions: make([]chan IAction, 0),
 		satisfier:       logic.NewCatchEventSatisfier(element, wr.eventDefinitionInstanceBuilder),
+		stopped:         make(chan struct{}),
 	}
 
 	err = evt.eventEgress.RegisterEventConsumer(evt)
@@ -62,6 +65,7 @@ func newCatchEvent(wr *wiring, element *schema.CatchEvent) (evt *catchEvent, err
 
 func (evt *catchEvent) run(ctx context.Context, sender tracing.ISenderHandle) {
 	defer sender.Done()
+	defer close(evt.stopped)
 
 	for {
 		select {
@@ -100,7 +104,12 @@ func (evt *catchEvent) ConsumeEvent(ev event.IEvent) (result event.ConsumptionRe
 		result = event.Consumed
 		return
 	}
-	evt.mch <- processEventMessage{event: ev}
+	select {
+	case evt.mch <- processEventMessage{event: ev}:
+	case <-evt.stopped:
+		// the loop has ended (the instance was cancelled): nobody drains the inbox any
+		// more, the event is dropped instead of blocking the caller
+	}
 	result = event.Consumed
 	return
 }
